@@ -506,6 +506,26 @@ class CallMixin:
 
         return self.ev_iter(gen.iter, st, with_iter)
 
+    def e_DictComp(self, e, st, k):
+        """{k: v for ... in src}: abstracted as a deterministic function of the iterated container (a canonical
+        dict object per source value and havoc epoch); element expressions are not modelled."""
+        if len(e.generators) != 1:
+            raise Unsupported("nested dict comprehension")
+        gen = e.generators[0]
+        src = gen.iter
+        if isinstance(src, ast.Call) and isinstance(src.func, ast.Attribute) and src.func.attr in ("items", "values", "keys") and not src.args:
+            src = src.func.value
+        n = sum(1 for x in ast.walk(self.ext.node) if isinstance(x, ast.DictComp) and (x.lineno, x.col_offset) < (e.lineno, e.col_offset))
+        self.note("dict comprehension abstracted as an uninterpreted function of its source container (contents not modelled)")
+
+        def done(s1, v):
+            f = self.get_uf(f"spec_dictcomp{n}", [Val], Val)
+            r = f(v.t)
+            s1.assume(smt.is_ref(r), smt.CLS[Val.r(r)] == smt.CLS_DICT)
+            return k(s1, SV(r, "dict"))
+
+        return self.ev(src, st, done)
+
     def e_ListComp(self, e, st, k):
         return self.comprehension("list", e, st, e, k)
 
